@@ -190,6 +190,21 @@ CHECKS = {
        "by the harness and handed to the model.",
   tech="Lean 4 proof (key equivalence + store invariant by induction over operation sequences) + bounded-exhaustive "
        "signature-pair differential", ref="§5 C14"),
+ "C16": dict(
+  text="Lean theorems about the bridge protocol as a labelled transition system (producer in a helper thread / loop, "
+       "FIFO channel, consumer) for every source, every failure position and EVERY interleaving: C16_sequence "
+       "(received = a prefix of the elements before the failure point, in order, each once), C16_complete (at the end "
+       "exactly those elements, raising iff the source failed), C16_sentinel_always (the sentinel is sent also on "
+       "failure, so the consumer cannot wait for ever), C16_no_thread_left (the consumer finishes only after the "
+       "worker exited), C16_never_stuck (some step is always enabled), from an 8-clause invariant (inv_step). Tie: "
+       "to_async_iter and to_sync_iter run as real threads under the baton scheduler with a cooperative executor / "
+       "queue / future (schedule points at source steps, channel puts, gets, joins); each execution's label trace "
+       "must be accepted by the model; monitor: sequence incl. falsy elements and duplicates, identity of the "
+       "terminal exception, no helper thread alive, non-iterator fast path, loop responsiveness in virtual time",
+  note=NOTE_COMMON + "Partial: 'does not block the event loop' is measured (ticker task), not proved. FIFO order "
+       "of call_soon_threadsafe / asyncio.Queue / queue.Queue is assumed (the real objects are used in the runs).",
+  tech="Lean 4 proof (inductive invariant over a producer/consumer LTS, all interleavings) + trace refinement "
+       "check under a deterministic scheduler", ref="§5 C16"),
 }
 
 def main():
